@@ -438,7 +438,7 @@ func C03(run *hx.Run) {
 						detail := hx.M{"profile": d.Profile, "db_seed": d.Seed, "table": t.Name, "index": c.ix.Name, "key": hx.EncodeRow(k)}
 						switch {
 						case pm != "":
-							run.Violation(base+"/panic", op+" panicked: "+pm, detail)
+							run.Violation(base+"/"+pmKind(pm), op+": "+pm, detail)
 						case err != nil:
 							run.Violation(base+"/error", fmt.Sprintf("%s(%s, %s, %s): %v", op, t.Name, c.ix.Name, hx.RowString(k), err), detail)
 						default:
